@@ -19,10 +19,13 @@ EXPECTED_DECLS = {'PortableRegistry': ['types'], 'PortableType': ['id', 'ty'], '
                   'TypeDefComposite': ['fields'], 'TypeDefVariant': ['variants'], 'TypeDefSequence': ['type_param'], 'TypeDefTuple': ['fields'], 'TypeDefCompact': ['type_param']}
 
 
-def check_decls(decls):
-    """the value layout above is only right for these declarations; anything else makes the run inconclusive"""
-    for k, v in EXPECTED_DECLS.items():
-        if decls.structs.get(k) != v: raise Inconclusive('declaration of %s changed: %s (regmodel expects %s)' % (k, decls.structs.get(k), v))
+def check_decls(decls, M=None):
+    """the value layout above is canonical; a different declared field ORDER is handled by the engine (projections / aggregates are remapped),
+    a different set of fields or variants makes the run inconclusive"""
+    if M is not None: M.install_layout(EXPECTED_DECLS)
+    else:
+        for k, v in EXPECTED_DECLS.items():
+            if sorted(decls.structs.get(k) or []) != sorted(v): raise Inconclusive('declaration of %s changed: %s (regmodel expects %s)' % (k, decls.structs.get(k), v))
     if [v for v, _ in decls.enums.get('TypeDef', [])] != KINDS: raise Inconclusive('TypeDef variants changed')
     if [v for v, _ in decls.enums.get('TypeDefPrimitive', [])] != PRIMS: raise Inconclusive('TypeDefPrimitive variants changed')
 
